@@ -205,6 +205,9 @@ func runC04(p *core.Program, r *core.Report) {
 		fname := p.FuncName(fn)
 		keyP := paramByName(fn, "key")
 		self := ssa.Value(fn.Params[0])
+		if fn == nget {
+			self = descentNode(fn)
+		}
 		nacc := 0
 		for _, in := range path.Instrs(fn) {
 			fa, ok := in.(*ssa.FieldAddr)
@@ -258,7 +261,7 @@ func runC04(p *core.Program, r *core.Report) {
 	if nget != nil {
 		fn := nget
 		fname := p.FuncName(fn)
-		self := ssa.Value(fn.Params[0])
+		self := descentNode(fn)
 		for _, b := range fn.Blocks {
 			ret, ok := b.Instrs[len(b.Instrs)-1].(*ssa.Return)
 			if !ok || len(ret.Results) != 2 {
@@ -281,7 +284,10 @@ func runC04(p *core.Program, r *core.Report) {
 				c.ob("PV2", fname, "hit returns the node's item", p.InstrPos(ret), okItem && cmpOutcome(fn, b, paramByName(fn, "key"), self) == ordEQ, "the hit must return n.Item where neither Compare outcome 1 nor -1 holds")
 			} else {
 				x := newPathCtx(p)
-				c.ob("PT3", fname, "error only for a nil subtree", p.InstrPos(ret), hasFact(edgeFacts(x, fn, b), "n", "==", "zero"), "get reports not-found on a path other than the nil subtree")
+				nilNode := hasFact(edgeFacts(x, fn, b), "n", "==", "zero") || guardedBy(fn, b, func(cd path.Cond, truth bool) bool {
+					return normCmp(cd.Op, truth) == "==" && cd.X == self && path.IsNil(cd.Y)
+				})
+				c.ob("PT3", fname, "error only for a nil subtree", p.InstrPos(ret), nilNode, "get reports not-found on a path other than the nil subtree")
 			}
 		}
 		// Get delegates to root.get(b, key)
@@ -764,4 +770,35 @@ func runC04(p *core.Program, r *core.Report) {
 		}
 		c.ob("PV1", p.FuncName(fUpsert), "Upsert descends from the root", c.fpos(fUpsert), okU, "Upsert must call root.upsert(b, key, val) on a non-nil root")
 	}
+}
+
+// descentNode: the node a lookup compares at - the receiver (the descent continues by
+// a recursive call) or, when the descent is written as a loop, the loop variable that
+// starts at the receiver and is replaced only by its own Left or Right child.
+func descentNode(fn *ssa.Function) ssa.Value {
+	self := ssa.Value(fn.Params[0])
+	for _, in := range path.Instrs(fn) {
+		ph, ok := in.(*ssa.Phi)
+		if !ok || len(path.NaturalLoop(ph.Block())) == 0 || ph.Type() != self.Type() {
+			continue
+		}
+		nSelf, nChild, other := 0, 0, 0
+		for _, e := range ph.Edges {
+			if e == self {
+				nSelf++
+				continue
+			}
+			if u, ok := e.(*ssa.UnOp); ok && u.Op == token.MUL {
+				if fa, ok := u.X.(*ssa.FieldAddr); ok && fa.X == ssa.Value(ph) && (isFieldOf(fa, "Node", "Left") || isFieldOf(fa, "Node", "Right")) {
+					nChild++
+					continue
+				}
+			}
+			other++
+		}
+		if nSelf == 1 && nChild >= 1 && other == 0 {
+			return ph
+		}
+	}
+	return self
 }
